@@ -243,6 +243,20 @@ def execute_plan(ctx, W, S, plan, lines, allow, cfg, ops):
         if kind == "invalid" or (kind == "valid" and ops.chance(1, 3)):
             dd, pp, st = C.lib_world(ctx, W, cur, tag=f"-d{i}")
             op = L().Operator(dd.actions[c[0]], dd, list(c[1]), pp.objects)
+            if kind == "invalid" and ops.chance(1, 2):
+                # history with short-lived states: the operator first answers a query about a temporary state in which
+                # the action IS applicable; the temporary is released and the inapplicable state is a fresh object
+                # created afterwards (anything the operator remembered about the temporary must not leak into this call)
+                S_app = C.force_applicable(cur, W.action(c[0]), c[1], W)
+                try:
+                    if interp.applicable(S_app, W.action(c[0]), c[1], W.D, W.objs):
+                        tmp = C.lib_world(ctx, W, S_app, tag=f"-t{i}")[2].copy()
+                        op.is_applicable(tmp)
+                        del tmp
+                        st = st.copy()
+                        ctx.probes["operator_queried_on_released_temporary"] += 1
+                except Exception:
+                    pass
             direct(ctx, op, st, kind, want, c)
         cur = want if kind == "valid" else (cur if (kind == "invalid" and not allow) else None)
     ctx.steps += len(plan)
